@@ -113,6 +113,8 @@ def _real_worker(args):
                 div = [("real-%s/harness-exception/%s" % (which, type(e).__name__), repr(e))]
             for key, detail in div:
                 out.setdefault(key, {"plan": plan, "detail": detail})
+            if sum(1 for k_ in out if "/timeout/" in k_) >= 2:
+                return out, n      # a hanging runtime costs 90 s per run: two reported time-outs are enough
     return out, n
 
 
